@@ -5,7 +5,11 @@
 //!   <out>/fails.txt   oracle failures (one per line)
 //!   <out>/stats.json  counters, samples
 mod exec;
+#[macro_use]
+mod exec_cont;
 mod exec_ext;
+mod oracle_cont;
+mod gen_cont;
 mod gen_edge;
 mod gen_search;
 mod hook;
@@ -215,8 +219,139 @@ fn search_props(prop: &str, tier: &str, seed: u64, threads: usize, out: &str) {
     write_outputs(out, &ctxs, extra);
 }
 
+fn cont_props(prop: &str, tier: &str, seed: u64, threads: usize, out: &str) {
+    let quick = tier == "quick";
+    let oracle = prop.to_lowercase();
+    let mut ctxs = new_ctxs(threads, &[oracle.as_str()]);
+    let mut extra = BTreeMap::new();
+    let all = vec!["di", "sdi", "un", "sun"];
+    match prop {
+        "C11" => {
+            let fls = vec!["di", "sdi"];
+            let n = if quick { 3 } else { 4 };
+            let total = 1usize << (n * n);
+            for fl in &fls {
+                exec::new_section();
+                spread(&mut ctxs, total, |i| {
+                    let mut rng = Rng::new(seed.wrapping_mul(31).wrapping_add(i as u64));
+                    gen_cont::scc_case(fl, &format!("b{n}-{i}"), &gen_cont::bitset_graph(n, i), &mut rng, 4)
+                });
+            }
+            extra.insert(format!("enumerated.all_digraphs_on_{n}_nodes"), format!("{total} edge sets x 4 container instances x 2 flavours"));
+            // smaller node counts completely as well
+            for nn in 1..n {
+                for fl in &fls {
+                    exec::new_section();
+                    spread(&mut ctxs, 1usize << (nn * nn), |i| {
+                        let mut rng = Rng::new(seed.wrapping_mul(37).wrapping_add(i as u64));
+                        gen_cont::scc_case(fl, &format!("b{nn}-{i}"), &gen_cont::bitset_graph(nn, i), &mut rng, 4)
+                    });
+                }
+            }
+            exec::new_section();
+            let nr = if quick { 200 } else { 5000 };
+            spread(&mut ctxs, nr, |i| {
+                let mut rng = Rng::new(seed.wrapping_mul(41).wrapping_add(i as u64));
+                let g = gen_search::random_graph(&mut rng, 30);
+                gen_cont::scc_case(fls[i % 2], &format!("r{i}"), &g, &mut rng, 3)
+            });
+            extra.insert("random.graphs".into(), format!("{nr}"));
+        }
+        "C12" => {
+            let configs: Vec<(usize, usize)> = if quick { vec![(2, 3), (3, 2)] } else { vec![(2, 4), (3, 4)] };
+            for fl in &all {
+                for &(n, mmax) in &configs {
+                    exec::new_section();
+                    let mut jobs = vec![];
+                    for m in 0..=mmax {
+                        for idx in 0..gen_search::count_seqs(n, m) {
+                            jobs.push((m, idx));
+                        }
+                    }
+                    let jobs = &jobs;
+                    spread(&mut ctxs, jobs.len(), |i| {
+                        let (m, idx) = jobs[i];
+                        let g = gen_search::GraphSpec { n, vals: (0..n).map(|k| (k as i64 * 7 + idx as i64) % 5 - 2).collect(), edges: gen_search::seq_graph(n, m, idx) };
+                        gen_cont::serde_case(fl, &format!("s{n}n{m}e-{idx}"), &g)
+                    });
+                    extra.insert(format!("enumerated.{fl}.{n}n<={mmax}e"), format!("graphs={}", jobs.len()));
+                }
+            }
+            exec::new_section();
+            let nr = if quick { 100 } else { 5000 };
+            spread(&mut ctxs, nr, |i| {
+                let mut rng = Rng::new(seed.wrapping_mul(43).wrapping_add(i as u64));
+                let g = gen_search::random_graph(&mut rng, 40);
+                gen_cont::serde_case(all[i % 4], &format!("r{i}"), &g)
+            });
+            extra.insert("random.graphs".into(), format!("{nr}"));
+        }
+        "C13" => {
+            // seed documents: small graphs (self-loops, parallel edges) ; all single structural mutations
+            let nseeds = if quick { 20 } else { 200 };
+            for fl in &all {
+                exec::new_section();
+                spread(&mut ctxs, nseeds, |i| {
+                    let mut rng = Rng::new(seed.wrapping_mul(47).wrapping_add(i as u64));
+                    let mut g = gen_search::random_graph(&mut rng, 4);
+                    g.edges.truncate(5);
+                    let docs = gen_cont::mutations(&g);
+                    gen_cont::de_case(fl, &format!("m{i}"), &docs)
+                });
+            }
+            exec::new_section();
+            let nr = if quick { 2000 } else { 100_000 };
+            spread(&mut ctxs, nr / 20, |i| {
+                let mut rng = Rng::new(seed.wrapping_mul(53).wrapping_add(i as u64));
+                let mut g = gen_search::random_graph(&mut rng, 5);
+                g.edges.truncate(6);
+                let base = gen_cont::mutations(&g)[0].clone();
+                let docs: Vec<String> = (0..20).map(|_| gen_cont::random_mutation(&mut rng, &base)).collect();
+                gen_cont::de_case(all[i % 4], &format!("x{i}"), &docs)
+            });
+            extra.insert("mutations".into(), format!("structural: {nseeds} seeds x 4 flavours x 2 formats; random: {nr}"));
+        }
+        _ => {
+            // C18: exhaustive histories over a small alphabet, random histories
+            let (len, keys) = if quick { (3usize, 2usize) } else { (4, 2) };
+            for fl in &all {
+                exec::new_section();
+                let alpha = gen_cont::cont_alphabet(fl, keys);
+                let total = alpha.len().pow(len as u32);
+                let alpha = &alpha;
+                spread(&mut ctxs, total, |i| {
+                    let mut l = vec![format!("case {fl} h{len}-{i}")];
+                    for k in 0..keys {
+                        l.push(format!("new {k} {}", k as i64 + 3));
+                    }
+                    l.push("g.new 0".into());
+                    let mut x = i;
+                    for _ in 0..len {
+                        l.push(alpha[x % alpha.len()].clone());
+                        x /= alpha.len();
+                    }
+                    l.push("g.iter 0".into());
+                    l.push("dump".into());
+                    l
+                });
+                extra.insert(format!("enumerated.{fl}"), format!("histories of {len} calls over an alphabet of {} = {total}", alpha.len()));
+            }
+            exec::new_section();
+            let (nh, nc) = if quick { (100, 100) } else { (2000, 200) };
+            spread(&mut ctxs, nh, |i| {
+                let mut rng = Rng::new(seed.wrapping_mul(59).wrapping_add(i as u64));
+                { let nk = 2 + rng.below(5); gen_cont::cont_history(&mut rng, all[i % 4], &format!("r{i}"), nk, nc) }
+            });
+            extra.insert("random.histories".into(), format!("{nh} x {nc} calls"));
+        }
+    }
+    write_outputs(out, &ctxs, extra);
+}
+
 fn main() {
-    std::panic::set_hook(Box::new(|_| {}));
+    if std::env::var("VERIF_DEBUG").is_err() {
+        std::panic::set_hook(Box::new(|_| {}));
+    }
     hook::install_sequential();
     let args: Vec<String> = std::env::args().collect();
     let cmd = args.get(1).map(|s| s.as_str()).unwrap_or("");
@@ -229,6 +364,7 @@ fn main() {
             let prop = arg(&args, "--prop", "");
             match prop.as_str() {
                 "C01" | "C02" | "C03" => edge_props(&prop, &tier, seed, threads, &out),
+                "C11" | "C12" | "C13" | "C18" => cont_props(&prop, &tier, seed, threads, &out),
                 "C04" | "C05" | "C06" | "C07" | "C08" | "C09" | "C10" => search_props(&prop, &tier, seed, threads, &out),
                 _ => {
                     eprintln!("unknown property {prop}");
